@@ -455,25 +455,23 @@ class type_base(object):
     
     @val.setter
     def val(self, v):
-        if self.is_signed:
-            # TODO: handle signed masking
-            self.get_model().set_val(ValueScalar(int(v)))
-        else:
-            # Mask the user-specified value
-            v = int(v) & ((1 << self.width)-1)
-            self.get_model().set_val(ValueScalar(v))
+        # Mask the user-specified value
+        v = int(v) & ((1 << self.width)-1)
+        if self.is_signed and (v & (1 << (self.width-1))) != 0:
+            # Re-interpret as two's complement
+            v = v - (1 << self.width)
+        self.get_model().set_val(ValueScalar(v))
             
     def get_val(self):
         return self.get_model().get_val().toInt()
     
     def set_val(self, val):
-        if self.is_signed:
-            # TODO: handle signed masking
-            self.get_model().set_val(ValueScalar(int(val)))
-        else:
-            # Mask the user-specified value
-            val = int(val) & ((1 << self.width)-1)
-            self.get_model().set_val(ValueScalar(val))
+        # Mask the user-specified value
+        val = int(val) & ((1 << self.width)-1)
+        if self.is_signed and (val & (1 << (self.width-1))) != 0:
+            # Re-interpret as two's complement
+            val = val - (1 << self.width)
+        self.get_model().set_val(ValueScalar(val))
         
     def bin_expr(self, op, rhs):
         to_expr(rhs)
